@@ -1749,6 +1749,7 @@ func runGenerated(c *vf.Case) {
 		didLong := false
 		var pending []pendingBind
 		churnOps := 0
+		emptyBatches := 0
 		var batch []arrival
 		for fed < nArr && e.work < budget {
 			batchNo++
@@ -1860,7 +1861,22 @@ func runGenerated(c *vf.Case) {
 				}
 			}
 			if len(bound) == 0 {
+				// every stream is unbound: ticks must stay silent; after a few of them either a
+				// pending bind arrives, one more stream is bound, or the history ends
 				bs = 0
+				emptyBatches++
+				if emptyBatches > 3 && len(pending) == 0 {
+					if len(e.streams) >= 16 {
+						break
+					}
+					nv := mkNack(nextNack)
+					nextNack++
+					nv.manual = true
+					endOps = append(endOps, func() { e.bind(nv) })
+					emptyBatches = 0
+				}
+			} else {
+				emptyBatches = 0
 			}
 			for i := 0; i < bs; i++ {
 				st := bound[r.Intn(len(bound))]
